@@ -290,7 +290,8 @@ func (w *world) executing(ids []string) string {
 	return "exec=" + strings.Join(out, ",")
 }
 
-var taskIDs = []string{"a", "b", "c", "d"}
+// "a" is a proper prefix of "ab" (task keys and association keys are scanned by prefix)
+var taskIDs = []string{"a", "ab", "b", "c", "d"}
 
 // node names of the pool's pipelines (stream|from|@gate and batch|query|@bgate): a stored snapshot is used by
 // ExecutingTask.start only when it has an entry for every node of the pipeline.
@@ -588,7 +589,7 @@ func execCase(ops []string) (out []string) {
 }
 
 // every (db, rp) and measurement a pool task can listen on
-var poisonDBRPs = [][2]string{{"db", "rp"}, {"db2", "rp2"}, {"x", "y"}, {"pdb", "prp"}, {"qdb", "qrp"}}
+var poisonDBRPs = [][2]string{{"db", "rp"}, {"odb", "orp"}, {"db2", "rp2"}, {"x", "y"}, {"pdb", "prp"}, {"qdb", "qrp"}}
 var poisonMeasurements = []string{"m0", "m1", "m2", "m3", "m4", "x", "y"}
 
 // kill makes the executing task `id` die on its own: a poison point addressed to it is written through
